@@ -20,6 +20,8 @@ CONSTANTS MinClasses,
           EmitAllUpTo,  \* print every complete program with at most this many classes ...
           Sel,          \* ... and one in Sel of the larger ones (chosen by a hash of the program and the seed)
           CondSel,      \* ... and one in CondSel of those whose resolved parameters contain a Conditional one
+          AltMode,      \* (round 4) 0: one use of **kwargs per def | 1: also descriptors with a second use under an if (alt) and
+                        \* pre-filled stored dicts (pre) | 2: only programs whose LAST class has one of these
           KeepGoing     \* TRUE: a failing clause is printed (<<"FAIL", clause, program>>) and the run goes on to find them all
 
 Budgets == <<B1, B2, B3, B4, B5>>
@@ -40,8 +42,10 @@ Params(i, S) == LET s == AscSeq({x \in S : DfltOf(i, x) = "req"}) \o AscSeq({x \
                 IN [k \in DOMAIN s |-> [n |-> Names[s[k]], t |-> TypeOf(i, s[k]), d |-> DfltOf(i, s[k])]]
 NameSeq(S)   == LET s == AscSeq(S) IN [k \in DOMAIN s |-> Names[s[k]]]
 
-FwX(k, b, hard, q, qop, qpos, av, chain) ==
-  [k |-> k, b |-> b, hard |-> NameSeq(hard), pos |-> IF qpos = "arg" THEN 1 ELSE 0, q |-> NameSeq(q), qop |-> qop, qpos |-> qpos, av |-> av, chain |-> chain]
+FwA(k, b, hard, q, qop, qpos, av, chain, amode, aflag, ahard, alt, pre) ==
+  [k |-> k, b |-> b, hard |-> NameSeq(hard), pos |-> IF qpos = "arg" THEN 1 ELSE 0, q |-> NameSeq(q), qop |-> qop, qpos |-> qpos, av |-> av, chain |-> chain,
+   amode |-> amode, aflag |-> aflag, ahard |-> NameSeq(ahard), alt |-> alt, pre |-> NameSeq(pre)]
+FwX(k, b, hard, q, qop, qpos, av, chain) == FwA(k, b, hard, q, qop, qpos, av, chain, "-", FALSE, {}, << >>, {})
 Fw(k, b, hard, q, qop, chain) == FwX(k, b, hard, q, qop, "stmt", "-", chain)
 Sig(i, own, kw, fw) == [has |-> TRUE, ps |-> Params(i, own), kw |-> kw, fw |-> fw]
 
@@ -60,27 +64,47 @@ ChainMenu(i) == <<
 ChainWeight == <<1, 1, 2, 2, 3, 1, 1>>
 NewChain == 7      \* only offered to classes that have an earlier class to construct
 
+(* ---- (round 4) the function g of a second use `if <test>: <call> else: g(ahard..., **kwargs)`; types / defaults of level i + 3 *)
+AltMenu(i) == <<
+  << Sig(i + 3, {}, FALSE, NoFwd) >>,                                                                   \* g()
+  << Sig(i + 3, {2, 3}, FALSE, NoFwd) >>,                                                               \* g(b, c)
+  << Sig(i + 3, {1}, TRUE, Fw("ignore", 0, {}, {}, "pop", << >>)) >>,                                   \* g(a, **kw): pass
+  << Sig(i + 3, {}, TRUE, Fw("ignore", 0, {}, {4}, "pop", << >>)) >>,                                   \* g(**kw): kw.pop("d")
+  << Sig(i + 3, {3}, FALSE, NoFwd) >>                                                                   \* g(c)
+>>
+AltWeight == <<1, 2, 1, 1, 1>>
+AModes == <<"if", "glob", "glob", "nglob">>        \* am = 1..4: run-time test | global True | global False | not global, True
+AFlags == <<FALSE, TRUE, FALSE, TRUE>>
+
 (* ---- class descriptors: [kind, own, hard, q, qop, qpos, b, ch, mhas, mown]                                       *)
 Kinds == <<"noinit", "named", "ignore", "super0", "superB", "func", "meth", "new", "attr">>
 KindIx(k) == PosIn(Kinds, k)
 QPos == <<"stmt", "arg", "kw", "alias">>
 AVs  == <<"meth", "prop", "upd", "dict">>      \* how the stored **kwargs is kept and used ("attr")
 DescQ(kind, own, hard, q, qop, qpos, b, ch, mhas, mown) ==
-  [kind |-> kind, own |-> own, hard |-> hard, q |-> q, qop |-> qop, qpos |-> qpos, b |-> b, ch |-> ch, mhas |-> mhas, mown |-> mown]
+  [kind |-> kind, own |-> own, hard |-> hard, q |-> q, qop |-> qop, qpos |-> qpos, b |-> b, ch |-> ch, mhas |-> mhas, mown |-> mown,
+   alt |-> 0, am |-> 0, ahard |-> {}, pre |-> {}]
 Desc(kind, own, hard, q, qop, b, ch, mhas, mown) == DescQ(kind, own, hard, q, qop, "stmt", b, ch, mhas, mown)
 \* where the pop of a forwarding def may be written: as a statement, nested as the positional argument of the call, or
 \* nested as the value of its (first) hard-coded keyword
 Places(hard, q, nest) == IF q = {} \/ ~nest THEN {"stmt"} ELSE {"stmt", "arg"} \cup (IF hard # {} THEN {"kw"} ELSE {})
 Weight(d) == Cardinality(d.own) + Cardinality(d.hard) + Cardinality(d.q) + (IF d.ch > 0 THEN ChainWeight[d.ch] ELSE 0)
              + (IF d.mhas THEN 1 + Cardinality(d.mown) ELSE 0)
+             + (IF d.alt > 0 THEN AltWeight[d.alt] + Cardinality(d.ahard) ELSE 0) + Cardinality(d.pre)
 Code(d) == Mask(d.own) + 16 * Mask(d.hard) + 256 * Mask(d.q) + 2048 * KindIx(d.kind) + 32768 * d.b + 262144 * d.ch
            + (IF d.qop = "get" THEN 4194304 ELSE 0) + 8388608 * (IF d.mhas THEN 16 + Mask(d.mown) ELSE 0)
-           + 536870912 * (PosIn(QPos, d.qpos) - 1)
+           + 536870912 * (PosIn(QPos, d.qpos) - 1) + 7 * d.alt + 41 * d.am + 211 * Mask(d.ahard) + 977 * Mask(d.pre)
 
 Build(i, bases, d) ==
   [bases |-> bases,
    init  |-> CASE d.kind = "noinit" -> NoSig
                [] d.kind = "named"  -> Sig(i, d.own, FALSE, NoFwd)
+               [] d.alt > 0         -> Sig(i, d.own, TRUE, FwA(d.kind, d.b, d.hard, d.q, d.qop, d.qpos, "-", IF d.ch > 0 THEN ChainMenu(i)[d.ch] ELSE << >>,
+                                                               AModes[d.am], AFlags[d.am], d.ahard, AltMenu(i)[d.alt], {}))
+               \* a pre-filled stored dict: dict(p=1); .update(**kwargs) or dict(p=1, **kwargs)
+               [] d.pre # {}        -> Sig(i, d.own, TRUE, FwA("attr", 0, d.hard, d.q, d.qop, d.qpos,
+                                                               IF (i + d.ch + Cardinality(d.hard) + Cardinality(d.own)) % 2 = 0 THEN "upd" ELSE "dict",
+                                                               ChainMenu(i)[d.ch], "-", FALSE, {}, << >>, d.pre))
                [] d.kind = "func"   -> Sig(i, d.own, TRUE, FwX("func", 0, d.hard, d.q, d.qop, d.qpos, "-", ChainMenu(i)[d.ch]))
                \* the four ways of keeping / using the stored dict rotate over the descriptors
                [] d.kind = "attr"   -> Sig(i, d.own, TRUE, FwX("attr", 0, d.hard, d.q, d.qop, d.qpos,
@@ -106,7 +130,16 @@ AllDescs ==
       \cup UNION {{DescQ(k, own, hard, q, "pop", qp, 0, ch, FALSE, {}) : qp \in Places(hard, q, k = "func")} :
               k \in {"func", "attr"}, own \in SmallSets(MaxOwn), hard \in SmallSets(MaxHard), q \in one, ch \in DOMAIN ChainWeight}
       sane == {d \in core : ~(d.qop = "get" /\ d.q = {})}
-  IN sane \cup {[d EXCEPT !.mhas = TRUE, !.mown = mo] : d \in sane, mo \in SmallSets(1)}
+      withm == sane \cup {[d EXCEPT !.mhas = TRUE, !.mown = mo] : d \in sane, mo \in SmallSets(1)}
+      \* (round 4) a second use in the else-branch of an if around the forwarding call (pops as statements before it)
+      \* (only what the largest budget can afford: the product is big)
+      MaxB == LET S == {B1, B2, B3, B4, B5} IN CHOOSE x \in S : \A y \in S : y <= x
+      abase == {x \in withm : x.kind \in {"super0", "superB", "func", "meth", "new"} /\ x.qpos = "stmt" /\ Weight(x) + 1 <= MaxB
+                               /\ (x.mhas => x.kind = "meth")}
+      alts == {y \in {[d EXCEPT !.alt = a, !.am = m, !.ahard = ah] : d \in abase, a \in DOMAIN AltWeight, m \in DOMAIN AModes, ah \in {{}, {3}}} :
+                 Weight(y) <= MaxB}
+      pres == UNION {{[d EXCEPT !.pre = {pr}] : d \in {x \in withm : x.kind = "attr" /\ pr \notin x.hard /\ Weight(x) + 1 <= MaxB /\ ~x.mhas}} : pr \in {1, 3}}
+  IN withm \cup (IF AltMode > 0 THEN alts \cup pres ELSE {})
 MaxWeight == B1 + B2 + B3 + B4 + B5
 DescsByWeight == [wt \in 0..MaxWeight |-> {d \in AllDescs : Weight(d) = wt}]
 \* the descriptors offered for class i with runtime ancestors anc (incl. itself) and `left` weight to spend.  A class
@@ -119,7 +152,8 @@ Descs(i, anc, methAbove, left, shp) ==
       /\ d.ch = NewChain => i > 1
       /\ d.mhas => (d.kind = "meth" \/ methAbove)
       /\ d.q # {} => Len(shp) <= PopClasses
-      /\ d.kind = "attr" => Len(shp) <= AttrClasses}
+      /\ d.kind = "attr" => Len(shp) <= AttrClasses
+      /\ AltMode = 2 => ((i = Len(shp)) <=> (d.alt > 0 \/ d.pre # {}))}
 
 (* ---- shapes: base lists such that every class statement is legal and every class is an ancestor of the last one  *)
 BaseSeqs(i) == {<< >>} \cup {<<x>> : x \in 1..(i - 1)} \cup {<<x, y>> : x \in 1..(i - 1), y \in (1..(i - 1))}
@@ -130,7 +164,7 @@ GoodShape(s) == (\A j \in DOMAIN s : MroOK(Sk(s), j)) /\ SetOf(Mro(Sk(s), Len(s)
 Shapes == UNION {{s \in ShapesOfLen(n) : GoodShape(s)} : n \in MinClasses..MaxClasses}
 
 (* ---- functions of a chain that is the component itself                                                           *)
-FnDescs(j) ==
+FnDescs0(j) ==
        {[own |-> own, kw |-> FALSE, k |-> "ignore", hard |-> {}, q |-> {}, qop |-> "pop", qpos |-> "stmt"] : own \in SmallSets(FnOwn)}
   \cup {[own |-> own, kw |-> TRUE, k |-> "ignore", hard |-> {}, q |-> q, qop |-> qop, qpos |-> "stmt"] :
           own \in SmallSets(FnOwn), q \in SmallSets(MaxPop), qop \in {"pop", "get"}}
@@ -139,11 +173,19 @@ FnDescs(j) ==
   \cup (IF j >= MaxChain THEN {} ELSE
        UNION {{[own |-> own, kw |-> TRUE, k |-> "next", hard |-> hard, q |-> q, qop |-> "pop", qpos |-> qp] : qp \in Places(hard, q, TRUE)} :
           own \in SmallSets(FnOwn), hard \in SmallSets(MaxHard), q \in SmallSets(IF MaxPop > 0 THEN 1 ELSE 0)})
-FnWeight(d) == Cardinality(d.own) + Cardinality(d.hard) + Cardinality(d.q)
+\* (round 4) the first function of the chain may have a second use under an if
+FnDescs(j) ==
+  LET base == {[own |-> d.own, kw |-> d.kw, k |-> d.k, hard |-> d.hard, q |-> d.q, qop |-> d.qop, qpos |-> d.qpos, alt |-> 0, am |-> 0, ahard |-> {}] : d \in FnDescs0(j)}
+  IN base \cup (IF AltMode > 0 /\ j = 1
+                THEN {[d EXCEPT !.alt = a, !.am = m, !.ahard = ah] : d \in {x \in base : x.k = "next" /\ x.qpos = "stmt"},
+                                                                      a \in DOMAIN AltWeight, m \in DOMAIN AModes, ah \in {{}, {3}}}
+                ELSE {})
+FnWeight(d) == Cardinality(d.own) + Cardinality(d.hard) + Cardinality(d.q) + (IF d.alt > 0 THEN AltWeight[d.alt] + Cardinality(d.ahard) ELSE 0)
 FnSane(d) == ~(d.qop = "get" /\ d.q = {})
-FnBuild(j, d) == Sig(j, d.own, d.kw, FwX(d.k, 0, d.hard, d.q, d.qop, d.qpos, "-", << >>))
+FnBuild(j, d) == Sig(j, d.own, d.kw, IF d.alt = 0 THEN FwX(d.k, 0, d.hard, d.q, d.qop, d.qpos, "-", << >>)
+                                     ELSE FwA(d.k, 0, d.hard, d.q, d.qop, d.qpos, "-", << >>, AModes[d.am], AFlags[d.am], d.ahard, AltMenu(0)[d.alt], {}))
 FnCode(d) == Mask(d.own) + 16 * Mask(d.hard) + 256 * Mask(d.q) + (IF d.kw THEN 4096 ELSE 0) + (IF d.k = "next" THEN 8192 ELSE 0) + (IF d.qop = "get" THEN 16384 ELSE 0)
-             + 32768 * PosIn(QPos, d.qpos)
+             + 32768 * PosIn(QPos, d.qpos) + 7 * d.alt + 41 * d.am + 211 * Mask(d.ahard)
 
 (* ---- the state: a program under construction                                                                      *)
 VARIABLES shape,   \* base lists of the class program being built (<< >> for a function chain)
@@ -179,7 +221,7 @@ AddClass ==
 AddFn ==
   /\ ~IsClassProg /\ (IF Len(fn) = 0 THEN TRUE ELSE (fn[Len(fn)].kw /\ fn[Len(fn)].fw.k = "next"))
   /\ LET j == Len(fn) + 1 IN
-     \E d \in {x \in FnDescs(j) : FnSane(x) /\ w + FnWeight(x) <= BFn} :
+     \E d \in {x \in FnDescs(j) : FnSane(x) /\ w + FnWeight(x) <= BFn /\ (AltMode = 2 => (x.alt > 0 \/ j > 1))} :
           /\ fn' = Append(fn, FnBuild(j, d))
           /\ h' = (h * 31 + FnCode(d)) % 65521
           /\ w' = w + FnWeight(d)
@@ -205,7 +247,8 @@ Inv ==
       ps   == run.ps
       ref  == RefOffer(T)
       X    == IF IsClassProg THEN DefOf(P, Len(cls), "init") ELSE 0
-      topHard == IF X = 0 \/ ~cls[X].init.kw \/ cls[X].init.fw.k = "ignore" THEN {}
+      \* (with a second use under an if, a name hard-coded at one call can be legal through the other)
+      topHard == IF X = 0 \/ ~cls[X].init.kw \/ cls[X].init.fw.k = "ignore" \/ cls[X].init.fw.amode # "-" THEN {}
                  ELSE SetOf(cls[X].init.fw.hard) \ (NamesOf(cls[X].init.ps) \cup SetOf(cls[X].init.fw.q))
   IN
   \* laws of the reference (Python's call semantics): keywords are routed independently, so "the set of legal
@@ -220,6 +263,8 @@ Inv ==
   \* C13 at design level: outside the named deviations the resolver's algorithm offers exactly the legal
   \* parameters, each with the type and default of the signature it is bound in, and no hard-coded one
   /\ (~call \/ dev # "-" \/ (NoDup(ps) /\ OfferAgrees(ref, OfferOf(ps)))) \/ Say("alg-refines-ref")
+  \* (round 4) a parameter that some branch does not accept is offered as Conditional
+  /\ (~call \/ dev # "-" \/ UncondOK(T, OfferOf(ps))) \/ Say("alg-uncond")
   /\ (~call \/ dev # "-" \/ topHard \cap NamesOf(ps) = {}) \/ Say("alg-hard-not-offered")
   \* the programs to replay on the real code, with what the specification expects of them
   \* (programs in which the resolver reports a Conditional parameter are few and delicate: one in CondSel is printed)
@@ -230,5 +275,6 @@ Inv ==
         offer |-> IF call THEN SetToSeq(ref) ELSE << >>,
         alg   |-> IF call THEN ps ELSE << >>,
         dev   |-> IF call THEN dev ELSE "-",
-        holds |-> ~call \/ (NoDup(ps) /\ OfferAgrees(ref, OfferOf(ps)))]))
+        every |-> IF call THEN SetToSeq(Everywhere(T)) ELSE << >>,
+        holds |-> ~call \/ (NoDup(ps) /\ OfferAgrees(ref, OfferOf(ps)) /\ UncondOK(T, OfferOf(ps)))]))
 =============================================================================
